@@ -169,7 +169,9 @@ class LookupOperatorToken(XPathToken):
 
     def evaluate(self, context: ta.ContextType = None) -> ta.OneOrMore[ta.ItemType]:
         if not self:
-            return self.symbol  # a placeholder token
+            # a placeholder token: its value is the symbol itself until a call of the
+            # partial function binds the supplied argument to it
+            return self.value
         return xlist(self.select(context))
 
     def select(self, context: ta.ContextType = None) -> Iterator[ta.ItemType]:
